@@ -120,6 +120,9 @@ class C18Step1D(_Base):
                         if op in ("fill_n_empty",):
                             continue
                         yield f"{subject}-{first}+{op}", dict(subject=subject, ops=[first, op])
+        # a histogram whose element type was narrowed to int16 (contents up to the type's maximum): entering more promotes instead of wrapping around
+        for op in ("fill", "fill_n", "iadd_same", "imul_pos", "filln_wshape"):
+            yield f"1d-int16-{op}", dict(subject="1d-int16", ops=[op])
         # one batch that makes an adaptive axis grow on both sides at once (valid, and refused for its weights after the growth was prepared)
         for op in ("fill_n_two_sided", "filln_two_sided_wshape"):
             yield f"1d-adaptive-{op}", dict(subject="1d-adaptive", ops=[op])
@@ -134,6 +137,8 @@ class C18Step1D(_Base):
             x[n] = cx.int(n, 0, 100) if kind == "int" else cx.real(n)
             if cx.sym and kind != "int":
                 cx.assume(x[n] >= 0)
+        if cx.sym and p["subject"] == "1d-int16":
+            cx.assume(*[cx.t(v) <= 32767 for v in list(x["f"]) + list(x["q"]) + list(x["g"])])
         if cx.sym:
             # the operand's own under/overflow never exceed the subject's (whether missed counts may go negative is not the question here)
             cx.assume(x["gu"] <= x["u"], x["go"] <= x["o"])
@@ -153,12 +158,15 @@ class C18Step1D(_Base):
     def _make(self, E, p, x):
         np = E.np
         H1 = E.mod("physt.histogram1d").Histogram1D
-        dt = float if p["subject"] == "1d-float" else int
+        dt = float if p["subject"] == "1d-float" else ("int16" if p["subject"] == "1d-int16" else int)
         if p["subject"] == "1d-adaptive":
             FWB = E.mod("physt.binnings").FixedWidthBinning
             mk = lambda vals, **kw: H1(FWB(bin_width=1.0, bin_count=2, bin_times_min=x["t"], adaptive=True), np.asarray(vals, dtype=dt), **kw)  # noqa: E731
             return mk(x["f"], errors2=np.asarray(x["q"], dtype=dt)), mk(x["g"])
         mk = lambda vals, **kw: H1(np.asarray(x["e"]), np.asarray(vals, dtype=dt), **kw)  # noqa: E731
+        if p["subject"] == "1d-int16":
+            # the operand is an ordinary int64 histogram (sums of two int16 histograms wrap around in numpy itself - not the subject here)
+            return mk(x["f"], errors2=np.asarray(x["q"], dtype=dt), underflow=x["u"], overflow=x["o"]), H1(np.asarray(x["e"]), np.asarray(x["g"], dtype=int), underflow=x["gu"], overflow=x["go"])
         return mk(x["f"], errors2=np.asarray(x["q"], dtype=dt), underflow=x["u"], overflow=x["o"]), mk(x["g"], underflow=x["gu"], overflow=x["go"])
 
     def _shifted(self, E, p, x):
@@ -414,7 +422,7 @@ class C18Collection(_Base):
     bounds_doc = "HistogramCollection construction / add with members of different binnings: refused, collection and members unchanged"
 
     def instances(self, tier):
-        for op in ("init_diff", "add_diff", "add_same", "init_empty", "empty_binning_add_diff", "empty_binning_add_same"):
+        for op in ("init_diff", "add_diff", "add_same", "init_empty", "empty_binning_add_diff", "empty_binning_add_same", "create_ok", "create_bad_weights"):
             yield f"col-{op}", dict(op=op)
 
     def declare(self, cx, p):
@@ -443,6 +451,13 @@ class C18Collection(_Base):
             r = E.attempt(col.add, b_diff if op.endswith("diff") else b_same)
             return {"outcome": r.name if isinstance(r, Raised) else "ok", "a": full(E, a), "n": len(col)}
         col = HC(a)
+        if op.startswith("create"):
+            # a member created from data: a refused creation (3 values, 2 weights) leaves no stray member behind
+            mid = (x["e"][0] + x["e"][1]) / 2.0
+            kw = {"weights": [1, 2]} if op == "create_bad_weights" else {"weights": [1, 2, 3]}
+            r = E.attempt(col.create, "new", [mid, mid, mid], **kw)
+            return {"outcome": r.name if isinstance(r, Raised) else "ok", "a": full(E, a), "n": len(col), "has_new": "new" in [h.name for h in col.histograms],
+                    "new_total": None if isinstance(r, Raised) else r.total}
         r = E.attempt(col.add, b_diff if op == "add_diff" else b_same)
         return {"outcome": r.name if isinstance(r, Raised) else "ok", "a": full(E, a), "n": len(col)}
 
@@ -457,6 +472,12 @@ class C18Collection(_Base):
                 yield "collection_unchanged", obs["n"] == 1
             if op == "empty_binning_add_diff":
                 yield "collection_unchanged", obs["n"] == 0
+        elif op == "create_bad_weights":
+            yield "refused", obs["outcome"] == "ValueError"
+            yield "collection_unchanged", obs["n"] == 1 and obs["has_new"] is False
+        elif op == "create_ok":
+            yield "accepted", obs["outcome"] == "ok" and obs["n"] == 2 and obs["has_new"] is True
+            yield "created_member_holds_the_data", cx.eq(obs["new_total"], 6)
         elif op == "empty_binning_add_same":
             yield "accepted", obs["outcome"] == "ok" and obs["n"] == 1
         else:
